@@ -64,6 +64,8 @@ def check_records(ctx, world):
 
 
 def run(ctx):
+    import warnings
+    warnings.simplefilter("ignore")
     world = H.World(ctx.rng)
     n_hist = 900 if ctx.quick else 5000
     w = {"appa": 5, "appw": 4, "load": 3, "setcount": 3, "setcap": 1, "settiming": 3, "write": 1, "get": 0, "pickle": 2, "bad": 1}
@@ -74,6 +76,41 @@ def run(ctx):
         GT[0] += oracle(ctx, world)
     ctx.extra["irregular_states_checked"] = check_records(ctx, world)
 
+    # one append call with several sources whose timing modes differ, onto empty and non-empty receivers of every mode: whatever the
+    # call does (accept or refuse), an IRREGULAR receiver ends with one monotonic timestamp per sample
+    import datetime as dt
+    import itertools
+    import numpy as np
+    from nitypes.waveform import AnalogWaveform, ComplexWaveform, DigitalWaveform, SampleIntervalMode, Timing
+    B = H.BASE
+    def mkw(kind, n, mode, t0=0):
+        tm = {"default": None, "N": Timing.create_with_no_interval(B), "R": Timing.create_with_regular_interval(dt.timedelta(seconds=1), B),
+              "I": Timing.create_with_irregular_interval([B + dt.timedelta(seconds=t0 + k) for k in range(n)])}[mode]
+        kw = {} if tm is None else {"timing": tm}
+        if kind == "digital":
+            return DigitalWaveform.from_lines(np.zeros((n, 1), np.uint8), **kw)
+        cls, dty = (AnalogWaveform, np.float64) if kind == "analog" else (ComplexWaveform, np.complex128)
+        return cls.from_array_1d(np.zeros(n, dty), dty, **kw)
+    n_mixed = 0
+    for kind in ("analog", "complex", "digital"):
+        for rmode, rn in (("default", 0), ("default", 2), ("N", 0), ("R", 0), ("I", 0), ("I", 2), ("R", 2)):
+            for smodes in itertools.product(("default", "N", "R", "I"), repeat=2):
+                for sns in ((3, 2), (0, 2), (2, 0), (1, 1)):
+                    recv = mkw(kind, rn, rmode)
+                    srcs = [mkw(kind, n, m, t0=10 * (i + 1)) for i, (m, n) in enumerate(zip(smodes, sns))]
+                    o = outcome(recv.append, srcs)
+                    n_mixed += 1
+                    t = recv.timing
+                    if t.sample_interval_mode == SampleIntervalMode.IRREGULAR:
+                        st = list(t._timestamps)
+                        mono = all(a <= b for a, b in zip(st, st[1:])) or all(a >= b for a, b in zip(st, st[1:]))
+                        got = outcome(lambda: list(t.get_timestamps(0, recv.sample_count)))
+                        if len(st) != recv.sample_count or not mono or got[0] != "ok":
+                            ctx.violation(what="irregular invariant after a multi-source append", kind=kind, receiver=f"{rmode}/{rn} samples",
+                                          sources=[f"{m}/{n}" for m, n in zip(smodes, sns)], call_outcome=str(o[:2])[:80],
+                                          observed=f"{len(st)} timestamps, {recv.sample_count} samples", required="one monotonic timestamp per sample")
+                    ctx.case(("mixed-append", kind, rmode, rn, smodes, sns))
+    ctx.extra["mixed_mode_appends"] = n_mixed
     # borrowed / read-only buffers: after every call, accepted or rejected, one monotonic timestamp per sample
     def bjudge(info, w, before, o, after):
         t = after.get("timing")
